@@ -24,15 +24,19 @@ reg("C05", "masked or undefined samples never influence a result",
          "selection shape) signatures with at least one oracle evaluated. NOT generated: undefined coordinates for simtub / "
          "statistics / anamorphosis / PCA / vmap / vcloud / polygons; undefined values for migrate (convention not documented); "
          "DbGrid as DATA; block kriging, kribayes, krigprof, colocated cokriging; measurement-error variances; codes / dates / "
-         "faults; SPDE; conditional simulation to POINT targets (see author report).",
+         "faults; SPDE; conditional simulation to POINT targets; intrinsic models in xvalid together with undefined-value "
+         "samples (they are target sites there) (see author report). Input classes hit by open findings have collapsed keys "
+         "(C05:<op>:ball-search, :undefined-coordinate, :selection-value-undefined, :external-drift-undefined, "
+         ":<feature>:extent-over-undefined-value-samples) and are generated often enough that every such key is reached in "
+         "every quick run while the two crash-prone configurations stay below 1 % of the cases.",
     require=dict(distinct=800,
-                 oracles=dict(quick={"kriging:equal": 170, "xvalid:equal": 100, "vario:gg": 450, "covmat:equal": 120,
+                 oracles=dict(quick={"kriging:equal": 160, "xvalid:equal": 95, "vario:gg": 450, "covmat:equal": 120,
                                      "simtub:equal": 130, "migrate:equal": 80, "stats:mono": 20, "stats:multi": 20,
-                                     "anam:psi": 40, "pca:eigvals": 45, "db:isActive": 40, "kriging:off-rows-TEST": 75},
-                              thorough={"kriging:equal": 3500, "xvalid:equal": 2200, "vario:gg": 9000, "covmat:equal": 2700,
+                                     "anam:psi": 40, "pca:eigvals": 45, "db:isActive": 40, "kriging:off-rows-TEST": 70},
+                              thorough={"kriging:equal": 3200, "xvalid:equal": 2000, "vario:gg": 9000, "covmat:equal": 2500,
                                         "simtub:equal": 2600, "migrate:equal": 1600, "stats:mono": 400, "stats:multi": 400,
-                                        "anam:psi": 1000, "pca:eigvals": 1000, "db:isActive": 1000,
-                                        "kriging:off-rows-TEST": 1600})),
+                                        "anam:psi": 900, "pca:eigvals": 950, "db:isActive": 950,
+                                        "kriging:off-rows-TEST": 1450})),
     assumptions=["the reduced Db built by the harness (Db::createFromSamples on kept rows + setLocator) is a faithful physical "
                  "removal (cross-checked against Db::createReduce and Db::deleteSamples by the db-predicates operation)",
                  "bit-for-bit equality is demanded because masked and reduced runs reach the same arithmetic in the same order "
